@@ -11,6 +11,8 @@
   ones at the provenance, aligned rows sit under their own labels.
 -/
 import Rsa.Lemmas.C10Sort
+import Rsa.Lemmas.C10RKeys
+import Rsa.Lemmas.C10Meas
 
 set_option linter.unusedSectionVars false
 set_option linter.unusedVariables false
@@ -202,10 +204,14 @@ theorem reachable_entry (s0 : Store α) (hwf : ∀ o ∈ s0, o.WF) (cm : Bool) (
 
 /-- The sentence "every retained RDM keeps all its descriptor values" read literally: whenever
     an object has an rdm descriptor `key` that the initial object of row `q` also had, the
-    value at row `q` is the initial one.  Not proved in this generality — and false in one
-    corner of the behaviour as coded and documented: `append` keeps only the receiver's keys,
-    so an appended row can lose `key`, and a later `concat` that demotes an object-level
-    descriptor of the same name then fills that row with the object's value. -/
+    value at row `q` is the initial one.
+    * It **holds** for every operation sequence without `append` (`reachable_rdesc_noappend`).
+    * With `append` it holds for every key the row still tracks (`reachable_rdesc`: the keys
+      `r.rk`, from which only an `append` into a receiver lacking the key removes one,
+      `append_drops_exactly`).
+    * In this literal generality it is **false** as coded (`reachable_rdesc_full_false`, a
+      three-object witness): `append` keeps only the receiver's keys, so an appended row loses
+      `key`, and a later `concat` with an object that has `key` fills that row with `None`. -/
 def reachable_rdesc_full (α : Type) [Zero α] : Prop :=
   ∀ (s0 : Store α), (∀ o ∈ s0, o.WF) → ∀ (cm : Bool) (ops : List Op) (k : Nat) (o : Obj α) (go : GObj),
     (run cm s0 ops)[k]? = some o → (grun cm s0 (ginit s0) ops)[k]? = some go →
@@ -213,7 +219,8 @@ def reachable_rdesc_full (α : Type) [Zero α] : Prop :=
     ∀ (q : Nat) (r : GRow), go.rows[q]? = some r →
     ∀ o0 col0, s0[r.src.1]? = some o0 → o0.rdesc.get key = some col0 → col[q]? = col0[r.src.2]?
 
-/-- proved part: for the *tracked* keys `go.rk` — every rdm descriptor of the initial object,
+/-- object-level part (kept from round 2; `reachable_rdesc` below is the row-level, stronger
+    statement): for the *tracked* keys `go.rk` — every rdm descriptor of the initial object,
     carried through every operation; after `append`, `concat` and `from_partials` the keys
     tracked in *all* the objects involved (`tracked_keys_merge`) — the descriptor is present and
     row `q` holds exactly the value initial RDM `r.src` had.  Still outside: object-level
@@ -226,7 +233,7 @@ theorem reachable_rdesc_partial (s0 : Store α) (hwf : ∀ o ∈ s0, o.WF) (cm :
     (q : Nat) (r : GRow) (hr : go.rows[q]? = some r) :
     ∃ col v, o.rdesc.get key = some col ∧ col[q]? = some v ∧ RVal s0 r.src key v := by
   have hinv := (reachable_inv s0 hwf cm ops).2 k o go hk hg
-  obtain ⟨col, hc, _, hv⟩ := hinv.rvals key hkey hne
+  obtain ⟨col, hc, _, hv⟩ := hinv.rvals.1 key hkey hne
   obtain ⟨v, hv1, hv2⟩ := hv q r hr
   exact ⟨col, v, hc, hv1, hv2⟩
 
@@ -238,10 +245,10 @@ theorem tracked_keys_kept (g : GObj) (sel : List Nat) :
 /-- `concat` / `from_partials` track exactly the keys tracked in every argument; `append` those
     tracked in receiver and argument -/
 theorem tracked_keys_merge (gfirst : GObj) (aligned gs : List GObj) (labs : List (List Lbl))
-    (all : List Lbl) (go gr : GObj) :
+    (all : List Lbl) (go gr : GObj) (keys : List String) :
     (gconcat gfirst aligned).rk = commonKeys (gfirst :: aligned) ∧
     (gfromPartials gs labs all).rk = commonKeys gs ∧
-    (gappend go gr).rk = go.rk.filter (fun k => gr.rk.contains k) := ⟨rfl, rfl, rfl⟩
+    (gappend keys go gr).rk = go.rk.filter (fun k => gr.rk.contains k) := ⟨rfl, rfl, rfl⟩
 
 /-- a key is common iff it is tracked in every object -/
 theorem mem_commonKeys_iff (g : GObj) (gs : List GObj) (k : String) :
@@ -250,6 +257,150 @@ theorem mem_commonKeys_iff (g : GObj) (gs : List GObj) (k : String) :
 
 /-- `_merged_rdm_descriptors` never fails: a descriptor an object lacks is filled with `None` -/
 theorem mergedRDesc_total (objs : List (Obj α)) : (mergedRDesc objs).isSome = true := rfl
+
+
+/-! ### 4c. rdm descriptors, row by row (closes `reachable_rdesc_partial`) -/
+
+/-- **Every retained RDM keeps its descriptor values**, row level, for *every* operation
+    sequence: in any reachable object, row `q` with ghost `r` has, for every rdm-descriptor key
+    it still tracks (`r.rk`), that descriptor present with exactly the value the initial RDM
+    `r.src` had — through indexing, subset / subsample, the pattern operations, `append`,
+    `concat` and `from_partials` (including merges where other objects lack the key and are
+    filled with `None`, and object-level descriptors demoted to rdm descriptors). -/
+theorem reachable_rdesc (s0 : Store α) (hwf : ∀ o ∈ s0, o.WF) (cm : Bool) (ops : List Op)
+    (k : Nat) (o : Obj α) (go : GObj) (hk : (run cm s0 ops)[k]? = some o)
+    (hg : (grun cm s0 (ginit s0) ops)[k]? = some go)
+    (q : Nat) (r : GRow) (hr : go.rows[q]? = some r)
+    (key : String) (hkey : key ∈ r.rk) (hne : key ≠ "index") :
+    ∃ col v, o.rdesc.get key = some col ∧ col[q]? = some v ∧ RVal s0 r.src key v :=
+  ((reachable_inv s0 hwf cm ops).2 k o go hk hg).rvals.2.2 q r hr key hkey hne
+
+/-- every rdm-descriptor column of a reachable object has exactly one value per RDM -/
+theorem reachable_rdesc_shape (s0 : Store α) (hwf : ∀ o ∈ s0, o.WF) (cm : Bool) (ops : List Op)
+    (k : Nat) (o : Obj α) (go : GObj) (hk : (run cm s0 ops)[k]? = some o)
+    (hg : (grun cm s0 (ginit s0) ops)[k]? = some go) :
+    ∀ kv ∈ o.rdesc, kv.2.length = o.nRdm := by
+  have hinv := (reachable_inv s0 hwf cm ops).2 k o go hk hg
+  intro kv hkv
+  rw [hinv.rvals.2.1 kv hkv, nRdm_eq hinv]
+
+/-- which keys a row tracks: all keys of its initial object at the start … -/
+theorem row_keys_init (k nr n : Nat) (keys : List String) :
+    ∀ r ∈ (GObj.init k nr n keys).rows, r.rk = keys := by
+  intro r hr
+  simp only [GObj.init, List.mem_map] at hr
+  obtain ⟨q, _, rfl⟩ := hr
+  rfl
+
+/-- … kept by every selection of RDMs / conditions … -/
+theorem row_keys_kept (r : GRow) (sel : List Nat) : (r.pickC sel).rk = r.rk ∧ r.unaligned.rk = r.rk :=
+  ⟨rfl, rfl⟩
+
+/-- … and reduced only by `append`: a row attached to a receiver with rdm-descriptor keys `keys`
+    keeps exactly those of its keys the receiver has (the receiver's own rows keep theirs) -/
+theorem append_drops_exactly (keys : List String) (go gr : GObj) :
+    (gappend keys go gr).rows
+      = go.rows ++ gr.rows.map (fun r => { r with al := false, rk := r.rk.filter (fun k => keys.contains k) }) :=
+  rfl
+
+/-- in an `append`-free operation sequence every row tracks every rdm-descriptor key of its
+    initial object -/
+theorem row_keys_full_noappend (s0 : Store α) (hwf : ∀ o ∈ s0, o.WF) (cm : Bool) (ops : List Op)
+    (hna : ∀ op ∈ ops, op.isAppend = false)
+    (k : Nat) (go : GObj) (hg : (grun cm s0 (ginit s0) ops)[k]? = some go)
+    (r : GRow) (hr : r ∈ go.rows) (o0 : Obj α) (h0 : s0[r.src.1]? = some o0) :
+    ∀ key ∈ o0.rdesc.keys, key ∈ r.rk :=
+  run_full cm ops hna (init_inv' hwf) (gfull_init s0) go (List.mem_of_getElem? hg) r hr o0 h0
+
+/-- a dict has one entry per key -/
+def KeysNodup (s0 : Store α) : Prop := ∀ o ∈ s0, o.rdesc.keys.Nodup
+
+/-- **The literal sentence for rdm descriptors**, for every `append`-free operation sequence
+    (this is `reachable_rdesc_full` restricted to such sequences): whenever a reachable object
+    has an rdm descriptor `key` that the initial object of row `q` also had, the value at row
+    `q` is the initial RDM's value. -/
+theorem reachable_rdesc_noappend (s0 : Store α) (hwf : ∀ o ∈ s0, o.WF) (hnd : KeysNodup s0)
+    (cm : Bool) (ops : List Op) (hna : ∀ op ∈ ops, op.isAppend = false)
+    (k : Nat) (o : Obj α) (go : GObj) (hk : (run cm s0 ops)[k]? = some o)
+    (hg : (grun cm s0 (ginit s0) ops)[k]? = some go)
+    (key : String) (col : List Lbl) (hcol : o.rdesc.get key = some col) (hne : key ≠ "index")
+    (q : Nat) (r : GRow) (hr : go.rows[q]? = some r)
+    (o0 : Obj α) (col0 : List Lbl) (h0 : s0[r.src.1]? = some o0) (hc0 : o0.rdesc.get key = some col0) :
+    col[q]? = col0[r.src.2]? := by
+  have hkey : key ∈ r.rk :=
+    row_keys_full_noappend s0 hwf cm ops hna k go hg r (List.mem_of_getElem? hr) o0 h0 key
+      (Desc.mem_keys_of_get hc0)
+  obtain ⟨col', v, hc', hv1, o0', col0', h0', hm, hv2⟩ :=
+    reachable_rdesc s0 hwf cm ops k o go hk hg q r hr key hkey hne
+  rw [hcol] at hc'
+  simp only [Option.some.injEq] at hc'
+  subst hc'
+  rw [h0] at h0'
+  simp only [Option.some.injEq] at h0'
+  subst h0'
+  have := Desc.get_of_mem_nodup (hnd o0 (List.mem_of_getElem? h0)) hm
+  rw [hc0] at this
+  simp only [Option.some.injEq] at this
+  subst this
+  rw [hv1, hv2]
+
+/-! #### the witness: with `append` the literal sentence is false as coded -/
+
+/-- `A` (keys `subj`), `B` (keys `subj`, `extra`): `A.append(B)` drops `extra` of B's RDM, then
+    `concat(A, B)` has `extra = [None, None, 7]`: the second row *is* B's RDM, whose `extra` was 7 -/
+def cexStore : Store Nat :=
+  [ { nCond := 2, vecs := [[some 1]], odesc := [],
+      rdesc := [("subj", [Lbl.str "s1"]), ("index", [Lbl.int 0])],
+      pdesc := [("index", [Lbl.int 0, Lbl.int 1])] },
+    { nCond := 2, vecs := [[some 2]], odesc := [],
+      rdesc := [("subj", [Lbl.str "s2"]), ("extra", [Lbl.int 7]), ("index", [Lbl.int 0])],
+      pdesc := [("index", [Lbl.int 0, Lbl.int 1])] } ]
+
+def cexOps : List Op := [.append 0 1, .concat [0, 1] none]
+
+/-- what the witness shows, as a decidable check on the model's run -/
+def cexCheck : Bool :=
+  match (run false cexStore cexOps)[2]?, (grun false cexStore (ginit cexStore) cexOps)[2]? with
+  | some o, some go =>
+    match o.rdesc.get "extra", go.rows[1]? with
+    | some col, some r => r.src == (1, 0) && col[1]? == some Lbl.none
+    | _, _ => false
+  | _, _ => false
+
+theorem cexStore_wf : ∀ o ∈ cexStore, o.WF := by
+  intro o ho
+  simp only [cexStore, List.mem_cons, List.mem_nil_iff, or_false] at ho
+  rcases ho with rfl | rfl
+  · exact { ncond := by decide, nrdm := by simp, vlen := by intro v hv; simp at hv; subst hv; rfl
+            pshape := by intro kv hkv; simp at hkv; subst hkv; rfl
+            rshape := by intro kv hkv; simp at hkv; rcases hkv with rfl | rfl <;> rfl }
+  · exact { ncond := by decide, nrdm := by simp, vlen := by intro v hv; simp at hv; subst hv; rfl
+            pshape := by intro kv hkv; simp at hkv; subst hkv; rfl
+            rshape := by intro kv hkv; simp at hkv; rcases hkv with rfl | rfl | rfl <;> rfl }
+
+/-- **Where the literal sentence cannot hold**: `reachable_rdesc_full` is false (two initial
+    objects, `append` then `concat`).  By `reachable_rdesc_noappend` every counterexample needs
+    an `append`. -/
+theorem reachable_rdesc_full_false : ¬ reachable_rdesc_full Nat := by
+  intro h
+  have hc : cexCheck = true := by decide +kernel
+  unfold cexCheck at hc
+  split at hc
+  · rename_i o go ho hgo
+    split at hc
+    · rename_i col r hcol hr
+      simp only [Bool.and_eq_true, beq_iff_eq] at hc
+      obtain ⟨hsrc, hval⟩ := hc
+      have h0 : cexStore[r.src.1]? = some
+          { nCond := 2, vecs := [[some 2]], odesc := [],
+            rdesc := [("subj", [Lbl.str "s2"]), ("extra", [Lbl.int 7]), ("index", [Lbl.int 0])],
+            pdesc := [("index", [Lbl.int 0, Lbl.int 1])] } := by rw [hsrc]; rfl
+      have := h cexStore cexStore_wf false cexOps 2 o go ho hgo "extra" col hcol (by decide) 1 r hr
+        _ [Lbl.int 7] h0 rfl
+      rw [hval, hsrc] at this
+      simp at this
+    · simp at hc
+  · simp at hc
 
 /-! ## 5. in-place operations change only their receiver; the others change nothing -/
 
@@ -348,6 +499,392 @@ theorem concat_aligns (other auth : List Lbl) (d : Lbl) (hall : ∀ x ∈ auth, 
   have hlt := List.idxOf_lt_length_of_mem (hall x hx)
   simp [List.getD_eq_getElem?_getD, List.getElem?_eq_getElem hlt]
 
+
+/-! ## 7. `dissimilarity_measure` (kept beside the store, `Rsa.Core.C10Meas`), as coded -/
+
+/-- a combined step keeps the measure list parallel to the store and never changes the
+    measure of an existing object (in particular in-place operations keep the receiver's) -/
+theorem meas_parallel_frame (pk cm : Bool) (s s' : Store α) (m m' : MStore) (op : Op)
+    (h : stepME pk cm (s, m) op = some (s', m')) (hlen : m.length = s.length) :
+    m'.length = s'.length ∧ ∀ j, j < m.length → m'[j]? = m[j]? := by
+  simp only [stepME, Option.bind_eq_bind, Option.bind_eq_some_iff, Option.pure_def,
+    Option.some.injEq, Prod.mk.injEq] at h
+  obtain ⟨s1, hs, m1, hm, rfl, rfl⟩ := h
+  exact ⟨by rw [measStep_length hm, stepE_length hs, hlen], measStep_frame hm⟩
+
+/-- the operations that hand the source's measure to their result -/
+def passesOn : Op → Option Nat
+  | .getitem i _ => some i
+  | .subset i _ _ => some i
+  | .subsample i _ _ => some i
+  | .subsetPattern i _ _ => some i
+  | .subsamplePattern i _ _ => some i
+  | .copy i => some i
+  | _ => none
+
+/-- indexing, subset / subsample of RDMs or conditions, copy / dict round trip: the result has
+    the source's measure -/
+theorem meas_passed_on (pk : Bool) (m m' : MStore) (op : Op) (i : Nat) (hi : passesOn op = some i)
+    (h : measStep pk m op = some m') : ∃ x, m[i]? = some x ∧ m' = m ++ [x] := by
+  cases op <;> simp only [passesOn, Option.some.injEq] at hi <;> try (exact absurd hi (by simp))
+  all_goals
+    subst hi
+    simp only [measStep, Option.bind_eq_bind, Option.bind_eq_some_iff, Option.pure_def,
+      Option.some.injEq] at h
+    obtain ⟨x, hx, rfl⟩ := h
+    exact ⟨x, hx, rfl⟩
+
+/-- `append` is accepted only between equal measures and changes none -/
+theorem meas_append_equal (pk : Bool) (m m' : MStore) (i j : Nat)
+    (h : measStep pk m (.append i j) = some m') : m[i]? = m[j]? ∧ m[i]?.isSome ∧ m' = m := by
+  simp only [measStep, Option.bind_eq_bind, Option.bind_eq_some_iff, Option.pure_def] at h
+  obtain ⟨a, ha, b, hb, h⟩ := h
+  split at h
+  · rename_i hab
+    simp only [Option.some.injEq] at h
+    subst h hab
+    exact ⟨by rw [ha, hb], by simp [ha], rfl⟩
+  · simp at h
+
+/-- `concat` is accepted only if all arguments have one measure, which the result gets -/
+theorem meas_concat_equal (pk : Bool) (m m' : MStore) (is : List Nat) (t : Option String)
+    (h : measStep pk m (.concat is t) = some m') :
+    ∃ x, (∀ i ∈ is, m[i]? = some x) ∧ is ≠ [] ∧ m' = m ++ [x] := by
+  simp only [measStep, Option.bind_eq_bind, Option.bind_eq_some_iff] at h
+  obtain ⟨ms, hms, h⟩ := h
+  have hf := measOf_forall₂ hms
+  split at h
+  · simp at h
+  · rename_i a rest
+    split at h
+    · rename_i hall
+      simp only [Option.pure_def, Option.some.injEq] at h
+      subst h
+      refine ⟨a, ?_, ?_, rfl⟩
+      · intro i hi
+        obtain ⟨x, hx, hix⟩ := forall₂_mem_left hf hi
+        rw [hix]
+        rcases List.mem_cons.mp hx with rfl | hx
+        · rfl
+        · simp only [List.all_eq_true, beq_iff_eq] at hall
+          rw [hall x hx]
+      · intro he; subst he; cases hf
+    · simp at h
+
+/-- `from_partials` gives its result the measure of the *last* argument, whatever the others have
+    (as coded: `measure = rdms.dissimilarity_measure` inside the loop, never compared) -/
+theorem meas_fromPartials_last (pk : Bool) (m m' : MStore) (is : List Nat) (a : Option (List Lbl))
+    (d : String) (h : measStep pk m (.fromPartials is a d) = some m') :
+    ∃ ms x, measOf m is = some ms ∧ ms.getLast? = some x ∧ m' = m ++ [x] := by
+  simp only [measStep, Option.bind_eq_bind, Option.bind_eq_some_iff] at h
+  obtain ⟨ms, hms, h⟩ := h
+  split at h
+  · rename_i x hx
+    simp only [Option.pure_def, Option.some.injEq] at h
+    exact ⟨ms, x, hms, hx, h.symm⟩
+  · simp at h
+
+/-- mixed measures: rows of an object measured as "a" end up in an object labelled "b" -/
+example : measStep false [some "a", some "b"] (.fromPartials [0, 1] none "conds")
+    = some [some "a", some "b", some "b"] := by decide
+
+/-- `permute_rdms` / `inverse_permute_rdms`: the measure is passed on iff `pk`; on the pinned
+    tree (`pk = false`) the result has `None` -/
+theorem meas_permute (pk : Bool) (m m' : MStore) (i : Nat) (p : List Nat)
+    (h : measStep pk m (.permute i p) = some m') :
+    ∃ x, m[i]? = some x ∧ m' = m ++ [if pk then x else none] := by
+  simp only [measStep, Option.bind_eq_bind, Option.bind_eq_some_iff, Option.pure_def,
+    Option.some.injEq] at h
+  obtain ⟨x, hx, rfl⟩ := h
+  exact ⟨x, hx, rfl⟩
+
+/-- no operation invents a measure: every measure after a step is one that was there before, or
+    `None`; if `permute_rdms` passes the measure on, it is always one that was there before -/
+theorem meas_no_invention (pk : Bool) (m m' : MStore) (op : Op) (h : measStep pk m op = some m') :
+    ∀ x ∈ m', x ∈ m ∨ (pk = false ∧ x = none) := by
+  have hnew : ∀ (y : Option String), y ∈ m ∨ (pk = false ∧ y = none) → m' = m ++ [y] →
+      ∀ x ∈ m', x ∈ m ∨ (pk = false ∧ x = none) := by
+    intro y hy he x hx
+    subst he
+    rcases List.mem_append.mp hx with hx | hx
+    · exact Or.inl hx
+    · simp only [List.mem_singleton] at hx; subst hx; exact hy
+  have hsame : m' = m → ∀ x ∈ m', x ∈ m ∨ (pk = false ∧ x = none) := by
+    intro he x hx; subst he; exact Or.inl hx
+  cases op with
+  | getitem i _ => obtain ⟨x, hx, he⟩ := meas_passed_on pk m m' _ i rfl h
+                   exact hnew x (Or.inl (List.mem_of_getElem? hx)) he
+  | subset i _ _ => obtain ⟨x, hx, he⟩ := meas_passed_on pk m m' _ i rfl h
+                    exact hnew x (Or.inl (List.mem_of_getElem? hx)) he
+  | subsample i _ _ => obtain ⟨x, hx, he⟩ := meas_passed_on pk m m' _ i rfl h
+                       exact hnew x (Or.inl (List.mem_of_getElem? hx)) he
+  | subsetPattern i _ _ => obtain ⟨x, hx, he⟩ := meas_passed_on pk m m' _ i rfl h
+                           exact hnew x (Or.inl (List.mem_of_getElem? hx)) he
+  | subsamplePattern i _ _ => obtain ⟨x, hx, he⟩ := meas_passed_on pk m m' _ i rfl h
+                              exact hnew x (Or.inl (List.mem_of_getElem? hx)) he
+  | copy i => obtain ⟨x, hx, he⟩ := meas_passed_on pk m m' _ i rfl h
+              exact hnew x (Or.inl (List.mem_of_getElem? hx)) he
+  | reorder i _ =>
+    simp only [measStep, Option.bind_eq_bind, Option.bind_eq_some_iff, Option.pure_def,
+      Option.some.injEq] at h
+    obtain ⟨_, _, rfl⟩ := h; exact hsame rfl
+  | sortAlpha i _ _ =>
+    simp only [measStep, Option.bind_eq_bind, Option.bind_eq_some_iff, Option.pure_def,
+      Option.some.injEq] at h
+    obtain ⟨_, _, rfl⟩ := h; exact hsame rfl
+  | sortList i _ _ _ =>
+    simp only [measStep, Option.bind_eq_bind, Option.bind_eq_some_iff, Option.pure_def,
+      Option.some.injEq] at h
+    obtain ⟨_, _, rfl⟩ := h; exact hsame rfl
+  | append i j => exact hsame (meas_append_equal pk m m' i j h).2.2
+  | concat is t =>
+    obtain ⟨x, hx, hne, he⟩ := meas_concat_equal pk m m' is t h
+    cases is with
+    | nil => exact absurd rfl hne
+    | cons i0 _ => exact hnew x (Or.inl (List.mem_of_getElem? (hx i0 List.mem_cons_self))) he
+  | fromPartials is a d =>
+    obtain ⟨ms, x, hms, hx, he⟩ := meas_fromPartials_last pk m m' is a d h
+    exact hnew x (Or.inl (measOf_mem hms x (List.mem_of_getLast? hx))) he
+  | permute i p =>
+    obtain ⟨x, hx, he⟩ := meas_permute pk m m' i p h
+    refine hnew _ ?_ he
+    cases pk
+    · exact Or.inr ⟨rfl, rfl⟩
+    · exact Or.inl (List.mem_of_getElem? hx)
+  | inversePermute i =>
+    simp only [measStep, Option.bind_eq_bind, Option.bind_eq_some_iff, Option.pure_def,
+      Option.some.injEq] at h
+    obtain ⟨x, hx, rfl⟩ := h
+    refine hnew _ ?_ rfl
+    cases pk
+    · exact Or.inr ⟨rfl, rfl⟩
+    · exact Or.inl (List.mem_of_getElem? hx)
+
+/-- over every operation sequence: if all initial objects are measured as `μ`, every object ever
+    present is measured as `μ` — or carries `None` if `permute_rdms` drops the measure -/
+theorem reachable_meas_uniform (pk cm : Bool) (s0 : Store α) (m0 : MStore) (μ : Option String)
+    (h0 : ∀ x ∈ m0, x = μ) (ops : List Op) :
+    ∀ x ∈ (runM pk cm (s0, m0) ops).2, x = μ ∨ (pk = false ∧ x = none) := by
+  suffices hgen : ∀ (ops : List Op) (sm : Store α × MStore),
+      (∀ x ∈ sm.2, x = μ ∨ (pk = false ∧ x = none)) →
+      ∀ x ∈ (runM pk cm sm ops).2, x = μ ∨ (pk = false ∧ x = none) from
+    hgen ops (s0, m0) (fun x hx => Or.inl (h0 x hx))
+  intro ops
+  induction ops with
+  | nil => intro sm h; simpa [runM] using h
+  | cons op ops ih =>
+    intro sm h
+    simp only [runM, List.foldl_cons]
+    apply ih
+    unfold stepM
+    cases hst : stepME pk cm sm op with
+    | none => simpa using h
+    | some sm' =>
+      simp only [Option.getD_some]
+      simp only [stepME, Option.bind_eq_bind, Option.bind_eq_some_iff, Option.pure_def,
+        Option.some.injEq] at hst
+      obtain ⟨s1, _, m1, hm, rfl⟩ := hst
+      intro x hx
+      rcases meas_no_invention pk sm.2 m1 op hm x hx with hx' | hx'
+      · exact h x hx'
+      · exact Or.inr hx'
+
+/-! ## 8. the index forms of `rdms[idx]` -/
+
+/-- whatever the index form (int, negative int, list / tuple / array with negative entries,
+    slice, boolean mask), the resolved row positions are rows of the object — so `getitem` is
+    never rejected for them, and `reachable_inv` / `reachable_rdesc` apply to the result -/
+theorem resolveIdx_lt (n : Nat) (idx : Idx) (sel : List Nat) (h : resolveIdx n idx = some sel) :
+    ∀ a ∈ sel, a < n := by
+  cases idx with
+  | int i =>
+    simp only [resolveIdx, Option.map_eq_some_iff] at h
+    obtain ⟨a, ha, rfl⟩ := h
+    intro b hb
+    simp only [List.mem_singleton] at hb
+    subst hb
+    exact normIdx_lt ha
+  | list l => exact mapM_normIdx_lt (by simpa [resolveIdx] using h)
+  | mask l =>
+    simp only [resolveIdx] at h
+    split at h
+    · rename_i hl
+      simp only [Option.some.injEq] at h
+      subst h
+      intro a ha
+      rw [← hl]
+      exact idxWhere_lt _ l a ha
+    · simp at h
+  | slice start stop step =>
+    simp only [resolveIdx] at h
+    split at h
+    · simp at h
+    · split at h
+      · simp only [Option.some.injEq] at h
+        subst h
+        intro a ha
+        have hlt := upFrom_lt _ _ _ _ a ha
+        cases stop with
+        | none => exact hlt
+        | some b => exact Nat.lt_of_lt_of_le hlt (clampPos_le n b)
+      · split at h
+        · simp only [Option.some.injEq] at h; subst h; simp
+        · rename_i hn
+          split at h
+          · simp only [Option.some.injEq] at h; subst h; simp
+          · rename_i a0 ha0
+            simp only [Option.some.injEq] at h
+            subst h
+            intro a ha
+            have hle := downFrom_le _ _ _ _ a ha
+            have ha0n : a0 < n := by
+              cases start with
+              | none => simp only [Option.some.injEq] at ha0; omega
+              | some b => exact clampNeg_lt hn ha0
+            omega
+
+theorem getitem_resolved (o : Obj α) (idx : Idx) (sel : List Nat) (h : resolveIdx o.nRdm idx = some sel) :
+    inRange sel o.nRdm = true :=
+  (inRange_iff sel o.nRdm).mpr (resolveIdx_lt o.nRdm idx sel h)
+
+/-- a negative int counts from the end: `rdms[-k]` is row `n - k` -/
+theorem resolveIdx_neg (n k : Nat) (hk : 1 ≤ k) (hkn : k ≤ n) :
+    resolveIdx n (.int (-(k : Int))) = some [n - k] := by
+  simp only [resolveIdx, normIdx]
+  rw [if_neg (by omega)]
+  simp only [Int.neg_neg, Int.toNat_natCast]
+  rw [if_pos hkn]
+  rfl
+
+/-- a boolean mask of the right length selects exactly the rows marked true, each once, in
+    their order (a mask of another length is rejected) -/
+theorem resolveIdx_mask (l : List Bool) :
+    resolveIdx l.length (.mask l) = some (idxWhere id l) ∧ (idxWhere id l).Nodup ∧
+    ∀ i, i ∈ idxWhere id l ↔ l[i]? = some true := by
+  refine ⟨by simp [resolveIdx], nodup_idxWhereFrom _ 0 l, fun i => ?_⟩
+  rw [mem_idxWhere]
+  constructor
+  · rintro ⟨x, hx, hxt⟩
+    simp only [id] at hxt
+    rw [hx, hxt]
+  · intro h; exact ⟨true, h, rfl⟩
+
+/-- the full slice is the identity selection -/
+theorem resolveIdx_slice_all (n : Nat) : resolveIdx n (.slice none none 1) = some (List.range n) := by
+  simp only [resolveIdx]
+  rw [if_neg (by decide), if_pos (by decide)]
+  have := upFrom_range' n 0
+  simp only [Nat.zero_add] at this
+  simp only [Int.toNat_one, this, List.range_eq_range']
+
+/-! ## 9. what `append`, `concat`, `from_partials` do with pattern / object-level descriptors
+    (documented behaviour, as coded — not part of the label-level claims) -/
+
+/-- `append`: values are stacked; pattern and object-level descriptors are the receiver's, the
+    argument's are ignored; no rdm-descriptor key of the argument is adopted, and every key of
+    the receiver must exist in the argument -/
+theorem append_desc_rules (o r o' : Obj α) (h : o.append r = some o') :
+    o'.pdesc = o.pdesc ∧ o'.odesc = o.odesc ∧ o'.nCond = o.nCond ∧ o'.vecs = o.vecs ++ r.vecs ∧
+    (∀ kv ∈ o'.rdesc, kv.1 = "index" ∨ kv.1 ∈ o.rdesc.keys) ∧
+    (∀ k ∈ o.rdesc.keys, r.rdesc.has k = true) := by
+  unfold Obj.append at h
+  split at h
+  · rename_i hc
+    simp only [Option.some.injEq] at h
+    subst h
+    simp only [Bool.and_eq_true, beq_iff_eq, List.all_eq_true] at hc
+    refine ⟨rfl, rfl, rfl, rfl, ?_, hc.2⟩
+    intro kv hkv
+    rcases Desc.mem_set hkv with h1 | rfl
+    · right
+      simp only [List.mem_map] at h1
+      obtain ⟨kv0, h0, rfl⟩ := h1
+      simp only [Desc.keys, List.mem_map]
+      exact ⟨kv0, h0, rfl⟩
+    · exact Or.inl rfl
+  · simp at h
+
+/-- `concat`: pattern descriptors are the first argument's; an object-level descriptor is kept
+    exactly when the first argument has it and every later argument has it with the same value -/
+theorem concat_desc_rules (first : Obj α) (rest : List (Obj α)) (tgt : Option String) (res : Obj α)
+    (args : List (Obj α)) (h : concatObjs (first :: rest) tgt = some (res, args)) :
+    res.pdesc = first.pdesc.addIndex res.nCond ∧ res.odesc = mergedODesc (first :: rest) ∧
+    (∀ kv ∈ res.odesc, kv ∈ first.odesc ∧ ∀ r ∈ rest, r.odesc.lookup kv.1 = some kv.2) := by
+  simp only [concatObjs, Option.bind_eq_bind, Option.bind_eq_some_iff] at h
+  obtain ⟨rd, _, ot, _, h⟩ := h
+  split at h
+  · simp at h
+  · simp only [Option.bind_eq_some_iff, Option.pure_def, Option.some.injEq, Prod.mk.injEq] at h
+    obtain ⟨aligned, _, res', hres, rfl, _⟩ := h
+    obtain ⟨_, _, _, _, _, hod, _, hpd, _⟩ := mk2d_some hres
+    refine ⟨hpd, hod, ?_⟩
+    intro kv hkv
+    rw [hod] at hkv
+    simp only [mergedODesc, List.mem_filter, List.all_eq_true, beq_iff_eq] at hkv
+    exact hkv
+
+/-- no object-level descriptor is lost by a merge: it is kept, or demoted to an rdm descriptor
+    (whose value for each row of an object is that object's value, `mergedVal`) -/
+theorem odesc_kept_or_demoted (objs : List (Obj α)) (o : Obj α) (ho : o ∈ objs)
+    (kv : String × Lbl) (hkv : kv ∈ o.odesc) :
+    kv.1 ∈ (mergedODesc objs).map (·.1) ∨ kv.1 ∈ mergedNames objs := by
+  by_cases hk : kv.1 ∈ (mergedODesc objs).map (·.1)
+  · exact Or.inl hk
+  · right
+    simp only [mergedNames, dedupStr]
+    rw [mem_uniq]
+    simp only [List.mem_append, List.mem_filter, List.mem_flatMap, List.mem_map]
+    right
+    refine ⟨⟨o, ho, kv, hkv, rfl⟩, ?_⟩
+    simpa using hk
+
+/-- `from_partials`: the only pattern descriptor of the result is the expanding one (plus `index`) -/
+theorem fromPartials_desc_rules (objs : List (Obj α)) (labs : List (List Lbl)) (all : List Lbl)
+    (d : String) (res : Obj α) (h : fromPartialsWith objs labs all d = some res) :
+    res.pdesc = Desc.addIndex [(d, all)] res.nCond ∧ res.odesc = mergedODesc objs := by
+  unfold fromPartialsWith at h
+  split at h
+  · simp at h
+  split at h
+  · simp at h
+  split at h
+  · simp at h
+  · simp only at h
+    split at h
+    · obtain ⟨_, _, _, _, _, hod, _, hpd, _⟩ := mk2d_some h
+      exact ⟨hpd, hod⟩
+    · simp at h
+
+
+/-! ## 10. leaves regenerated from the source on every run (round 3) -/
+
+/-- `batch_to_vectors` (3-D input): the row length it allocates is the number of pairs; `mk3d`
+    checks every condensed row against it -/
+theorem b2vLen_triangular (n : Nat) : b2vLen n = n * (n - 1) / 2 := rfl
+
+/-- `subset_pattern`: the operator combining the two mask bits of a pair (`&` in the source) is
+    the conjunction; `maskVec` calls this leaf, `maskVec_render` depends on it -/
+theorem pairSelected_and (a b : Bool) : (pairSelected a.toNat b.toNat == 1) = (a && b) :=
+  Rsa.Rdm.pairSelected_spec a b
+
+/-- the diagonal offset of `triu_indices` in `subset_pattern` and `rdms_to_df` is 1: the pair
+    enumeration of the model (`pairs`) is the strictly upper triangle -/
+theorem triuOffset_strict : triuOffset = 1 ∧ ∀ n, ∀ p ∈ pairs n, p.1 + triuOffset ≤ p.2 ∧ p.2 < n := by
+  refine ⟨rfl, ?_⟩
+  intro n p hp
+  have := mem_pairs hp
+  simp only [triuOffset]
+  omega
+
+/-- the comparison that selects positions in `subsample`, `subsample_pattern`, `bool_index`
+    (`==` in the source) is equality of the values -/
+theorem selCmp_eq (d v : Int) : (selCmp d v == 1) = (Lbl.int d == Lbl.int v) := by
+  unfold selCmp
+  by_cases h : d = v
+  · subst h; simp
+  · have : ¬ Lbl.int d = Lbl.int v := by intro e; injection e with e; exact h e
+    simp [h, this]
+
 /-! ## non-vacuity: concrete objects satisfy the hypotheses -/
 
 /-- a concrete initial object: 2 RDMs over 3 conditions with a NaN, str / int descriptors with a
@@ -370,5 +907,36 @@ example : selSortList [Lbl.int 1, Lbl.int 0, Lbl.int 1] [Lbl.int 0, Lbl.int 1] =
   decide +kernel
 example : selSubsample [Lbl.int 1, Lbl.int 0, Lbl.int 1] [Lbl.int 1, Lbl.int 1] = [0, 2, 0, 2] := by
   decide +kernel
+
+
+/-! ### round 3 -/
+
+/-- hypotheses of `reachable_rdesc_noappend` are met by the witness store and an `append`-free
+    sequence, and its conclusion is not trivial there: `concat(A, B)` alone keeps B's `extra` -/
+example : KeysNodup cexStore := by
+  intro o ho
+  simp only [cexStore, List.mem_cons, List.mem_nil_iff, or_false] at ho
+  rcases ho with rfl | rfl <;> decide
+example : ∀ op ∈ [Op.concat [0, 1] none, Op.getitem 2 [1]], op.isAppend = false := by decide
+example : ((run false cexStore [Op.concat [0, 1] none, Op.getitem 2 [1]])[3]?).bind (fun o => o.rdesc.get "extra")
+    = some [Lbl.int 7] := by decide +kernel
+/-- a row of the witness that still tracks a key (hypothesis `hkey` of `reachable_rdesc`) -/
+example : ((grun false cexStore (ginit cexStore) cexOps)[2]?).bind (fun go => go.rows[2]?.map (·.rk))
+    = some ["subj", "extra", "index"] := by decide +kernel
+example : ((grun false cexStore (ginit cexStore) cexOps)[2]?).bind (fun go => go.rows[1]?.map (·.rk))
+    = some ["subj", "index"] := by decide +kernel
+/-- hypotheses of the measure theorems: an accepted combined step -/
+example : (stepME false false (cexStore, [some "euclidean", some "euclidean"]) (.concat [0, 1] none)).map (·.2)
+    = some [some "euclidean", some "euclidean", some "euclidean"] := by decide +kernel
+example : (stepME false false (cexStore, [some "euclidean", some "corr"]) (.append 0 1)).isNone = true := by
+  decide +kernel
+/-- index forms: hypotheses of `resolveIdx_lt` / `resolveIdx_neg` are met -/
+example : resolveIdx 5 (.slice (some 3) (some 0) (-2)) = some [3, 1] := by decide +kernel
+example : resolveIdx 3 (.mask [true, false, true]) = some [0, 2] := by decide +kernel
+example : resolveIdx 4 (.list [-1, 0]) = some [3, 0] := by decide +kernel
+/-- descriptor rules: an accepted `append` / `concat` exists -/
+example : ((cexStore[0]?).bind (fun a => (cexStore[1]?).bind (fun b => a.append b))).isSome = true := by
+  decide +kernel
+example : (concatObjs cexStore none).isSome = true := by decide +kernel
 
 end Rsa.Props.C10
